@@ -13,6 +13,7 @@ import (
 	"encoding/json"
 	"errors"
 	"fmt"
+	"golang.org/x/xerrors"
 	"io"
 	"net/http/httptest"
 	"reflect"
@@ -409,8 +410,24 @@ func (c c11Case) build() error {
 		return errors.New(c.Msg)
 	case "wrapped":
 		return fmt.Errorf("wrapped: %w", PlainErr{c.Msg})
+	case "formatter":
+		return &FormatterErr{c.Msg}
+	case "xerrors":
+		return xerrors.Errorf("%s", c.Msg)
 	}
 	return nil
+}
+
+// FormatterErr prints itself differently under %+v (as errors carrying a stack trace do); its message is Error().
+type FormatterErr struct{ Msg string }
+
+func (e *FormatterErr) Error() string { return e.Msg }
+func (e *FormatterErr) Format(f fmt.State, verb rune) {
+	if verb == 'v' && f.Flag('+') {
+		fmt.Fprintf(f, "%s\n    harness.(*TokAPI).Call\n        /src/fx_world.go:1", e.Msg)
+		return
+	}
+	fmt.Fprint(f, e.Msg)
 }
 
 // kindReg returns the registration whose dynamic type equals the built error's.
@@ -697,7 +714,7 @@ func isNilInside(err error) bool {
 	return v.Kind() == reflect.Ptr && v.IsNil()
 }
 
-var c11Kinds = []string{"nil", "plain", "plainptr", "ptrplain", "meta", "metaval", "codec", "codecval", "both", "failmeta", "failcodec", "failto", "stdlib", "wrapped"}
+var c11Kinds = []string{"nil", "plain", "plainptr", "ptrplain", "meta", "metaval", "codec", "codecval", "both", "failmeta", "failcodec", "failto", "stdlib", "wrapped", "formatter", "xerrors"}
 
 func genC11(t *rapid.T) c11Case {
 	msg, _ := genString(t, "msg")
@@ -751,7 +768,7 @@ const c11Rule = "error value kinds {nil, plain value, unregistered pointer to pl
 func TestC11(t *testing.T) {
 	rec := NewRec("C11", c11Rule)
 	defer rec.Finish(t)
-	rec.RequireClass("error_after_cancel", "concurrent_callers", "table_same", "table_disjoint", "table_swapped", "table_client-only", "table_server-only", "kind_meta", "kind_codec", "kind_failmeta", "kind_failcodec", "empty_message", "shape_VE")
+	rec.RequireClass("kind_formatter", "kind_xerrors", "error_after_cancel", "concurrent_callers", "table_same", "table_disjoint", "table_swapped", "table_client-only", "table_server-only", "kind_meta", "kind_codec", "kind_failmeta", "kind_failcodec", "empty_message", "shape_VE")
 	env, err := newC11Env()
 	if err != nil {
 		t.Fatalf("env: %v", err)
